@@ -33,6 +33,7 @@ const (
 	tagOutside = "OUTSIDE"
 	tagLoader  = "loader" // inside; content additionally performs the load under test
 	tagChain   = "chain"  // inside; content loads sub/ldr.lisp which performs the load under test
+	tagLink    = "link"   // inside; content performs the next load of a chain with the primitive the case prescribes for that level
 	tagHist    = "hist"   // inside; content performs up to three loads in a row, each with its errors ignored
 )
 
@@ -48,13 +49,16 @@ var theLayout = []layoutEnt{
 	{"root/ldr.lisp", kFile, tagLoader},
 	{"root/chain.lisp", kFile, tagChain},
 	{"root/hist.lisp", kFile, tagHist},
+	{"root/link.lisp", kFile, tagLink},
 	{"root/sub", kDir, ""},
 	{"root/sub/in.lisp", kFile, tagInside},
 	{"root/sub/ldr.lisp", kFile, tagLoader},
 	{"root/sub/hist.lisp", kFile, tagHist},
+	{"root/sub/link.lisp", kFile, tagLink},
 	{"root/sub/deep", kDir, ""},
 	{"root/sub/deep/in.lisp", kFile, tagInside},
 	{"root/sub/deep/ldr.lisp", kFile, tagLoader},
+	{"root/sub/deep/link.lisp", kFile, tagLink},
 	{"root/sub/up", kLink, ".."},
 	{"root/lnk_in", kLink, "in.lisp"},
 	{"root/lnk_out", kLink, "../outside/secret.lisp"},
@@ -89,6 +93,10 @@ const (
 	symHost = "c20-host-load"
 	symHLoc = "c20-hloc"
 	symSep  = "c20-sep"
+	// chain part: a link.lisp file performs the next load of the chain
+	symChainLisp = "c20-chain-lisp?"
+	symChainLoc  = "c20-chain-loc"
+	symChainGo   = "c20-chain-go"
 	// host builtins that call the Go entry points from wherever the call sits
 	symGoLoad    = "c20-go-load"
 	symGoLoadCtx = "c20-go-load-ctx"
@@ -102,6 +110,8 @@ func fileContent(e layoutEnt) string {
 		return m + "(if (" + symLisp + ") (load-file (" + symLoc + ")) (" + symHost + "))\n"
 	case tagChain:
 		return m + "(load-file \"sub/ldr.lisp\")\n"
+	case tagLink:
+		return m + "(if (" + symChainLisp + ") (load-file (" + symChainLoc + ")) (" + symChainGo + "))\n"
 	case tagHist:
 		for i := 0; i < 3; i++ {
 			m += "(ignore-errors (load-file (" + symHLoc + " " + string(rune('0'+i)) + ")))\n"
